@@ -110,7 +110,7 @@ def density_scalar_cases(draw):
 def density_array_cases(draw):
     model = draw(st.sampled_from(MODEL_NAMES))
     container = draw(st.sampled_from(["list", "1d", "2d", "int_array", "tuple", "0d",
-                                      "noncontig", "float32ish_ints"]))
+                                      "noncontig", "int_list"]))
     if container == "2d":
         rows = draw(st.integers(1, 3))
         cols = draw(st.integers(1, 4))
@@ -122,7 +122,7 @@ def density_array_cases(draw):
     else:
         rs = draw(radii_lists(model, 0 if container in ("list", "1d") else 1, 10))
         shape = [len(rs)]
-    if container in ("int_array", "float32ish_ints"):
+    if container in ("int_array", "int_list"):
         rs = [float(math.floor(r)) for r in rs]
     return dict(model=model, rs=rs, shape=shape, container=container)
 
@@ -433,7 +433,7 @@ def _build_container(case):
         return np.array(rs[0])
     if c == "int_array":
         return np.array([int(r) for r in rs], dtype=np.int64)
-    if c == "float32ish_ints":
+    if c == "int_list":
         return [int(r) for r in rs]
     if c == "noncontig":
         buf = np.zeros(2 * len(rs))
